@@ -415,6 +415,7 @@ fn parse_wops(v: &Value) -> Vec<WOp> {
 
 fn pcw_config(preset: u64, capbytes: usize, opts: u64) -> PageCacheConfig {
     let mut c = pc_config(preset, capbytes);
+    if opts & 128 != 0 { c = PageCacheConfig::default().with_capacity(c.capacity).with_shards(c.num_shards); }
     if opts & 1 != 0 { let p = c.enable_prefetch; c = c.with_prefetch(!p); }
     if opts & 2 != 0 { let s = c.enable_statistics; c = c.with_statistics(!s); }
     if opts & 4 != 0 { c.page_size = 8192; }
@@ -644,6 +645,8 @@ pub(super) fn cbuf_case(cx: &mut Ctx, c: &Value) {
                 fails.push(format!("after op {:?} the buffer shows {} bytes (len() = {}), it was given {} bytes{}", (code, a, b), buf.data().len(), buf.len(), shadow.len(), if buf.data().len() == shadow.len() { " (different bytes)" } else { "" }));
                 break;
             }
+            // CachedBlobStore::get serves the cache's bytes exactly when has_data() says so: bytes without has_data() would be dropped
+            if !shadow.is_empty() && !buf.has_data() { fails.push(format!("after op {:?} the buffer holds {} bytes but has_data() is false", (code, a, b), shadow.len())); break; }
         }
     });
     if let Err(p) = r { fails.push(format!("panicked: {}", p)); }
@@ -838,7 +841,10 @@ pub(super) fn fsaw_case(cx: &mut Ctx, c: &Value) {
             let pick = |ids: &Vec<u32>| if ids.is_empty() { None } else { Some(ids[(a as usize) % ids.len()]) };
             match op {
                 0 => { let st = (a as u32 & 0xFF_FFFF, b as u32, a % 2 == 1);
+                       // below max_states nothing is evicted, so the id handed out must not belong to a state that is still cached
+                       let in_use: Vec<u32> = if ids.len() <= 64 { ids.iter().copied().filter(|&i| fc.get_state(i).is_some()).collect() } else { vec![] };
                        let id = fc.cache_state(st.0, st.1, st.2).map_err(e)?;
+                       if in_use.len() < bound && in_use.contains(&id) { fails.push(format!("cache_state returned id {}, under which another state is still cached ({} of {} states)", id, in_use.len(), bound)); }
                        last.insert(id, st); zp.remove(&id); if !ids.contains(&id) { ids.push(id); } }
                 1 => { if let Some(id) = pick(&ids) { if let Some(s) = fc.get_state(id) {
                            match last.get(&id) { Some(&w) => if (s.parent(), s.child_base, s.is_terminal()) != w || s.is_free() { fails.push(format!("get_state({}) = {:?}, most recently cached {:?}", id, (s.parent(), s.child_base, s.is_terminal(), s.is_free()), w)); },
@@ -967,7 +973,7 @@ pub(super) fn run_wide(cx: &mut Ctx, rng: &mut Rng, th: bool) {
         let n = rng.range(3, 14) as usize;
         ops.extend(gen_wops(rng, &files, n, single));
         for f in 0..nf { ops.push((0, f as u64, 0, files[f].1, 0)); }
-        let opts = if rng.chance(1, 2) { rng.below(128) } else { 0 };
+        let opts = if rng.chance(1, 2) { rng.below(256) } else { 0 };
         let c = json!({"cell": "pcw", "single": single, "preset": rng.below(4), "capbytes": capbytes, "opts": opts, "files": files.iter().map(|f| json!([f.0, f.1, f.2])).collect::<Vec<_>>(), "ops": wops_json(&ops)});
         if i == 0 { cx.sum.sample(json!({"page_cache_wide": {"files": c["files"], "ops": wops_json(&ops[..ops.len().min(8)])}})); }
         pcw_case(cx, &c);
